@@ -6,6 +6,7 @@ from hypothesis import assume
 from hypothesis import strategies as st
 
 from refs import coordsys as cs
+from vlib import util
 from vlib.core import Part
 
 PROPERTY = "C14"
@@ -195,6 +196,36 @@ def oracle_coords(case, R):
     for cid, ref in systems.items():
         if cid in bc:
             _check_info(R, bc[cid], ref, "build_coords", S)
+    # duplicates (documented): equal duplicate cards are quietly ignored; a card that repeats an id with anything
+    # else - another type, another reference system, other points - is a RuntimeError
+    if rows:
+        import json as _json
+        import zlib as _zlib
+        drng = util.rng_of(_zlib.crc32(_json.dumps([case["order"], len(rows), str(rows[0][:3])]).encode()) + 404)
+        k_ = int(drng.integers(0, len(rows)))
+        rows2 = [list(r) for r in rows] + [list(rows[k_])]
+        rows2 = [rows2[i] for i in drng.permutation(len(rows2))]
+        bc2 = n2p.build_coords(rows2)
+        R.check(set(bc2) == set(bc) and all(np.array_equal(np.asarray(bc2[c_]), np.asarray(bc[c_])) for c_ in bc),
+                "build_coords_equal_duplicate_changes_result", f"cid {rows[k_][0]} given twice")
+        how = ["ctype", "refcid", "point"][int(drng.integers(0, 3))]
+        bad = list(rows[k_])
+        if how == "ctype":
+            bad[1] = {1: 2, 2: 3, 3: 1}[int(bad[1])]
+        elif how == "refcid":
+            others = [int(r[0]) for r in rows if int(r[0]) != int(bad[0]) and int(r[0]) != int(bad[2])]
+            bad[2] = others[0] if others else (0 if int(bad[2]) != 0 else None)
+        else:
+            bad[3 + int(drng.integers(0, 9))] += 0.5
+        if bad[2] is not None:
+            rows3 = [list(r) for r in rows] + [bad]
+            rows3 = [rows3[i] for i in drng.permutation(len(rows3))]
+            try:
+                n2p.build_coords(rows3)
+                R.fail("build_coords_accepts_conflicting_duplicate",
+                       f"cid {bad[0]} given twice, second card differs in {how}: no RuntimeError")
+            except RuntimeError:
+                R.label("dup_conflict:" + how)
     cr = {}
     for c in _chain_order(cards):
         info = n2p.mkusetcoordinfo(_card4x3(c).tolist(), None, cr)
